@@ -100,7 +100,31 @@ def r1_entry_points(ctx):
             ctx.ob("R12.1", "add_idle_session:inserts-open-session", ok, ins[0].site, "the insert is dominated by the false edge of is_closed()" if ok else "a closed session can be inserted into the idle map")
 
 
-def r2_to_r6_reapers(ctx):
+class _Only:
+    """view of a Ctx that records only the named rules (another property re-uses part of this module)"""
+    def __init__(self, ctx, rules):
+        self._c, self._r = ctx, rules
+
+    def __getattr__(self, k):
+        return getattr(self._c, k)
+
+    def ob(self, rule, *a, **kw):
+        if rule in self._r:
+            return self._c.ob(rule, *a, **kw)
+
+    def missing(self, rule, *a, **kw):
+        if rule in self._r:
+            return self._c.missing(rule, *a, **kw)
+
+    def floor(self, rule, what, n, k):
+        if rule in self._r:
+            return self._c.floor(rule, what, n, k)
+        return n >= k
+
+
+def r2_to_r6_reapers(ctx, only=None):
+    if only:
+        ctx = _Only(ctx, only)
     names = {cls: n[0] for cls, n in lock_fields(ctx.P).items()}
     reapers = _reapers(ctx)
     sks = {}
